@@ -41,6 +41,7 @@ type Engine struct {
 	files          []*ContractFile
 	targets        []target
 	lemmas         []lemmaTarget
+	bounded        []lemmaTarget
 	structural     []string // contracts that no longer bind
 	tmpdir         string
 	seed           int
@@ -196,6 +197,10 @@ func (eng *Engine) load() error {
 		for _, c := range cf.Contracts {
 			if c.Lemma {
 				eng.lemmas = append(eng.lemmas, lemmaTarget{c, sp})
+				continue
+			}
+			if c.Bounded {
+				eng.bounded = append(eng.bounded, lemmaTarget{c, sp})
 				continue
 			}
 			if c.Extern {
